@@ -64,8 +64,11 @@ type Workload struct {
 	OwnerKind string            `json:"ownerKind,omitempty"` // for KOwnedPods (default ReplicaSet)
 	NPods     int               `json:"npods,omitempty"`     // for KOwnedPods (default 2)
 	OmitNs    bool              `json:"omitNs,omitempty"`    // manifest carries no metadata.namespace (only with Ns == "default")
-	HostIP    string            `json:"hostIP,omitempty"`
-	PodIP     string            `json:"podIP,omitempty"`
+	// ExtraOwners (KOwnedPods): further, non-controller ownerReferences around the controller's: "before-false", "after-false",
+	// "before-omitted", "after-omitted", "both-false" (controller: false spelled out, or the field left out)
+	ExtraOwners string `json:"extraOwners,omitempty"`
+	HostIP      string `json:"hostIP,omitempty"`
+	PodIP       string `json:"podIP,omitempty"`
 }
 
 // PeerKind is the kind printed by the tool in the peer name.
